@@ -815,8 +815,19 @@ unsafe fn openat_common(real: OpenatFn, dirfd: c_int, p: *const c_char, flags: c
             -1
         }
         Outcome::Go(w, mut d, idx) => {
-            let r = real(dirfd, p, flags, mode);
-            let e = errno();
+            // same emulated-atime treatment as `open_common`: the kernel's own atime updates are
+            // switched off and the configured policy is applied by the interposer instead
+            let mut flags = flags;
+            if w.emu.is_some() {
+                flags |= libc::O_NOATIME;
+            }
+            let mut r = real(dirfd, p, flags, mode);
+            let mut e = errno();
+            if r < 0 && e == libc::EPERM && w.emu.is_some() {
+                flags &= !libc::O_NOATIME;
+                r = real(dirfd, p, flags, mode);
+                e = errno();
+            }
             if r >= 0 {
                 let (ino, is_dir) = fstat_info(r);
                 d.ino = ino;
